@@ -59,7 +59,7 @@ func (emptyPassword) GetPasswd(string) (string, error) { return "", nil }
 var poolKeys = []string{"rsa2048a", "rsa2048b", "rsa3072", "p256a", "p256b", "p384a", "p521a"}
 
 func TestMain(m *testing.M) {
-	rec.Rule("cases = (private key in {RSA-2048 x2, RSA-3072, P-256 x2, P-384, P-521}) x (certificate made for: the same key | another key of the same type | another type | the same curve, other point) x (chain order: leaf first / last / middle, with or without intermediate and root) x (container: PEM, concatenated DER, certs-only PKCS#7 in PEM or DER, PKCS#12 bundle, token-stored certificate, token returning another key than the configured certificate's) x (PGP certificate of the same / another key) x signature type (pe-coff, msi, ps, jar, cat, appmanifest, vsix, apk, xar, pgp, rpm, deb); oracle = mismatch (the certificate relic treats as leaf is not the key's) => error, input untouched, nothing emitted; success => the first embedded certificate is the key's certificate and the signature verifies under it with Go crypto (PKCS#7 types, via an independent DER walker) / under relic's verifier with the key's certificate or PGP key as sole trust anchor; non-trivial = mismatch of a kind, or a matching chain of length >= 2; distinct = (key, certificate key, order, container, source, signature type)")
+	rec.Rule("cases = (private key in {RSA-2048 x2, RSA-3072, P-256 x2, P-384, P-521}) x (certificate made for: the same key | another key of the same type | another type | the same curve, other point) x (chain order: leaf first / last / middle, with or without intermediate and root) x (container: PEM, concatenated DER, certs-only PKCS#7 in PEM or DER, PKCS#12 bundle, token-stored certificate, token returning another key than the configured certificate's) x (PGP certificate of the same / another key) x signature type (pe-coff, msi, ps, jar, cat, appmanifest, vsix, apk, xar, pgp, rpm, deb); oracle = mismatch (the certificate relic treats as leaf is not the key's) => error, input untouched, nothing emitted; success => the first embedded certificate is the key's certificate and the signature verifies under it with Go crypto (PKCS#7 types, via an independent DER walker) / under relic's verifier with the key's certificate or PGP key as sole trust anchor; the PKCS#7 builder and the XML-DSig signer called directly with drawn certificate lists and options: they sign iff the first certificate belongs to the key, and the output names it and verifies under it; non-trivial = mismatch of a kind, or a matching chain of length >= 2; distinct = (key, certificate key, order, container, source, signature type)")
 	var err error
 	workDir, err = os.MkdirTemp("", "c07-")
 	if err != nil {
